@@ -24,12 +24,18 @@ import atexit  # noqa: E402
 atexit.register(cleanup)
 
 
+def _lift_limits():
+    import resource
+    soft, hard = resource.getrlimit(resource.RLIMIT_AS)
+    resource.setrlimit(resource.RLIMIT_AS, (hard, hard))
+
+
 def run_model(ops, timeout=1800):
     """Send operations (list of JSON-able dicts) to the Lean driver, return the list of parsed results."""
     payload = "\n".join(json.dumps(op, separators=(",", ":")) for op in ops) + "\n"
     p = subprocess.run(
         ["lake", "env", "lean", "--run", "Main.lean"],
-        cwd=LEAN_DIR, input=payload, capture_output=True, text=True, timeout=timeout,
+        cwd=LEAN_DIR, input=payload, capture_output=True, text=True, timeout=timeout, preexec_fn=_lift_limits,
     )
     if p.returncode != 0:
         raise RuntimeError(f"lean driver failed ({p.returncode}): {p.stderr[-2000:]}")
